@@ -2,6 +2,8 @@ package gen
 
 import (
 	"fmt"
+	"k8s.io/apimachinery/pkg/api/resource"
+	"math"
 	"math/rand/v2"
 	"time"
 
@@ -342,6 +344,94 @@ func Hostile(c *spec.Case, r *rand.Rand, n int) []string {
 				pg2.Spec.TopologyConstraint = enginev2alpha2.TopologyConstraint{Topology: "", RequiredTopologyLevel: "zone", PreferredTopologyLevel: "rack"}
 			}
 			return true
+		}},
+		{"pod-running-without-node-or-on-missing-node", func() bool {
+			done := false
+			for _, p := range o.Pods {
+				if p.Namespace != "ns" {
+					continue
+				}
+				if p.Spec.NodeName != "" && r.IntN(3) == 0 {
+					p.Spec.NodeName = "no-such-node"
+					done = true
+				} else if p.Spec.NodeName == "" && r.IntN(4) == 0 {
+					p.Status.Phase = v1.PodRunning
+					done = true
+				}
+			}
+			return done
+		}},
+		{"queue-named-default-and-odd-names", func() bool {
+			// with project-level fairness the scheduler synthesises a parent queue called "default"
+			unl := enginev2.QueueResource{Quota: -1, Limit: -1, OverQuotaWeight: 1}
+			o.Queues = append(o.Queues, &enginev2.Queue{ObjectMeta: metav1.ObjectMeta{Name: "default", UID: "queue-default-user"},
+				Spec: enginev2.QueueSpec{ParentQueue: "", Resources: &enginev2.QueueResources{GPU: unl, CPU: unl, Memory: unl}}})
+			if len(o.Queues) > 1 {
+				o.Queues[pick(len(o.Queues)-1)].Spec.ParentQueue = "default"
+			}
+			return true
+		}},
+		{"podgroup-garbage-annotations-and-timestamps", func() bool {
+			if len(o.PodGroups) == 0 {
+				return false
+			}
+			pg := o.PodGroups[pick(len(o.PodGroups))]
+			if pg.Annotations == nil {
+				pg.Annotations = map[string]string{}
+			}
+			pg.Annotations["kai.scheduler/last-start-timestamp"] = []string{"yesterday", "", "0001-01-01T00:00:00Z", "9999-12-31T23:59:59Z", "2026-13-45T99:99:99Z"}[pick(5)]
+			pg.Annotations["kai.scheduler/stale-podgroup-timestamp"] = []string{"never", "", "9999-12-31T23:59:59Z"}[pick(3)]
+			pg.Spec.PriorityClassName = []string{"", "no-such-class", "system-node-critical"}[pick(3)]
+			pg.Spec.Preemptibility = enginev2alpha2.Preemptibility([]string{"", "maybe", "PREEMPTIBLE"}[pick(3)])
+			return true
+		}},
+		{"pod-negative-or-huge-requests", func() bool {
+			for _, p := range o.Pods {
+				if p.Namespace == "ns" && len(p.Spec.Containers) > 0 && r.IntN(3) == 0 {
+					c0 := &p.Spec.Containers[0]
+					if c0.Resources.Requests == nil {
+						c0.Resources.Requests = v1.ResourceList{}
+					}
+					switch pick(4) {
+					case 0:
+						c0.Resources.Requests[v1.ResourceCPU] = *resource.NewMilliQuantity(-500, resource.DecimalSI)
+					case 1:
+						c0.Resources.Requests[v1.ResourceMemory] = *resource.NewQuantity(math.MaxInt64, resource.BinarySI)
+					case 2:
+						c0.Resources.Requests["nvidia.com/gpu"] = *resource.NewQuantity(-1, resource.DecimalSI)
+					case 3:
+						c0.Resources.Requests["nvidia.com/gpu"] = *resource.NewQuantity(1<<40, resource.DecimalSI)
+					}
+					return true
+				}
+			}
+			return false
+		}},
+		{"pod-dangling-resource-claims-and-volumes", func() bool {
+			for _, p := range o.Pods {
+				if p.Namespace == "ns" && p.Spec.NodeName == "" && r.IntN(2) == 0 {
+					none := "no-such-claim"
+					p.Spec.ResourceClaims = append(p.Spec.ResourceClaims, v1.PodResourceClaim{Name: "c1", ResourceClaimName: &none},
+						v1.PodResourceClaim{Name: "c2", ResourceClaimTemplateName: &none}, v1.PodResourceClaim{Name: "c3"})
+					p.Spec.Volumes = append(p.Spec.Volumes, v1.Volume{Name: "v", VolumeSource: v1.VolumeSource{PersistentVolumeClaim: &v1.PersistentVolumeClaimVolumeSource{ClaimName: "no-such-pvc"}}})
+					return true
+				}
+			}
+			return false
+		}},
+		{"pod-odd-affinity-and-selectors", func() bool {
+			for _, p := range o.Pods {
+				if p.Namespace == "ns" && p.Spec.NodeName == "" && r.IntN(2) == 0 {
+					p.Spec.Affinity = &v1.Affinity{
+						NodeAffinity:    &v1.NodeAffinity{RequiredDuringSchedulingIgnoredDuringExecution: &v1.NodeSelector{NodeSelectorTerms: []v1.NodeSelectorTerm{{}, {MatchExpressions: []v1.NodeSelectorRequirement{{Key: "zone", Operator: "Bogus", Values: []string{"a"}}, {Key: "", Operator: v1.NodeSelectorOpGt, Values: []string{"x"}}}}}}},
+						PodAntiAffinity: &v1.PodAntiAffinity{RequiredDuringSchedulingIgnoredDuringExecution: []v1.PodAffinityTerm{{TopologyKey: "", LabelSelector: &metav1.LabelSelector{MatchExpressions: []metav1.LabelSelectorRequirement{{Key: "a", Operator: "Bogus"}}}}}},
+					}
+					p.Spec.NodeSelector = map[string]string{"": "", "kubernetes.io/hostname": ""}
+					p.Spec.Tolerations = append(p.Spec.Tolerations, v1.Toleration{Operator: "Bogus"}, v1.Toleration{Key: "", Operator: v1.TolerationOpEqual, Value: "x"})
+					return true
+				}
+			}
+			return false
 		}},
 		{"priority-classes-missing", func() bool {
 			o.PriorityClasses = nil
